@@ -1100,7 +1100,7 @@ def check_C05(ctx):
                        "queued bars: any number per predecessor, created before or after the predecessor's hand-over"]
     frames_check(ctx, {"CT_FLUSHBAR", "HM_PUSH", "HM_POP", "OUT_ROWS", "OUT_UNEXPECTED", "CT_FRAME", "NOTIFY", "HM_SYNC",
                        "HM_ITERREQ", "CT_ADD", "HM_STATE", "HM_END"},
-                 c05_monitor, 150, 4000, CONT_DEPS | COVER_DEPS | {"GenChecks.v", "gen/GenApi.v", "Props/C05.v"},
+                 c05_monitor, 150, 4000, CONT_DEPS | COVER_DEPS | {"GenConst.v", "gen/GenApi.v", "Props/C05.v"},
                  fams=[("frames", 0.7, True), ("faults", 0.3, True)])   # the notifier's list is owed on the error path too
 
 
@@ -1176,7 +1176,7 @@ def check_C04(ctx):
     ctx.assumptions = ["non-terminal output: the library assumes height = width", "the pty replay interprets CR LF, ESC[nA and ESC[J only "
                        "(the only controls the library emits); lines never wrap because C07/C09 bound their width"]
     frames_check(ctx, {"OUT_CUU", "CT_FRAME", "OUT_ROWS", "OUT_UNEXPECTED", "CT_DELAYEND", "OUT_TEXT"}, M.c04_monitor, 200, 6000,
-                 CONT_DEPS | {"ContainerFlush.v", "ContainerOut.v", "Term.v", "Vt.v", "VtProofs.v", "GenChecks.v", "gen/GenApi.v", "Props/C04.v"})
+                 CONT_DEPS | {"ContainerFlush.v", "ContainerOut.v", "Term.v", "Vt.v", "VtProofs.v", "GenTerm.v", "gen/GenApi.v", "Props/C04.v"})
     if ctx.harness:
         pty_check(ctx)
         # each frame fits in columns (spinner fillers with frames of unequal width); a container that was not asked to refresh draws
@@ -1664,7 +1664,7 @@ def check_C01(ctx):
 
 
 # ---------------------------------------------------------------- the wait group Progress.Wait blocks on (C01)
-WG_DEPS = {"WaitGroup.v", "WaitGroupProofs.v"}
+WG_DEPS = {"WaitGroup.v", "WaitGroupProofs.v", "GenWaitGroup.v"}
 
 
 def wg_check(ctx, sigs):
